@@ -81,7 +81,7 @@ type RunResult struct {
 	Modules   []string
 	Trusted   []string
 	Axioms    []string
-	Inputs    []string // preconditions of exported methods: input assumptions granted by the property's quantifier text
+	Inputs    []string                   // preconditions of exported methods: input assumptions granted by the property's quantifier text
 	Locals    map[string][]sym.LocalInfo // parameters and locals of the functions under contract (for the baseline)
 }
 
